@@ -117,7 +117,45 @@ def mod_small_neg_proof():
     return [("lemma-step", "mod_small_neg", _moddefs(y, st), mod_small_neg(y, st))]
 
 
+def uniform_prefix(s):
+    """all entries equal to the first => prefix(s, i) == i * s[0]"""
+    j, i = z3.Ints("j!up i!up")
+    w = S.f_at(s, 0)
+    uni = z3.ForAll([j], z3.Implies(z3.And(0 <= j, j < S.f_len(s)), S.f_at(s, j) == w), patterns=[S.f_at(s, j)])
+    return z3.Implies(uni, z3.ForAll([i], z3.Implies(z3.And(0 <= i, i <= S.f_len(s)), S.f_prefix(s, i) == i * w),
+                                     patterns=[S.f_prefix(s, i)]))
+
+
+def uniform_prefix_proof():
+    s = z3.Const("s!l", S.SeqSort)
+    k, j = z3.Ints("k!l j!up2")
+    w = S.f_at(s, 0)
+    uni = z3.ForAll([j], z3.Implies(z3.And(0 <= j, j < S.f_len(s)), S.f_at(s, j) == w), patterns=[S.f_at(s, j)])
+    return [
+        ("lemma-base", "uniform_prefix", [uni], S.f_prefix(s, 0) == 0 * w),
+        ("lemma-step", "uniform_prefix", [uni, 0 <= k, k < S.f_len(s), S.f_prefix(s, k) == k * w], S.f_prefix(s, k + 1) == (k + 1) * w),
+    ]
+
+
+def mod_multiple(m, w):
+    """(m*w) % w == 0 and (m*w) // w == m for w > 0"""
+    return z3.Implies(w > 0, z3.And(S.f_pymod(m * w, w) == 0, S.f_pydiv(m * w, w) == m))
+
+
+def mod_multiple_proof():
+    m, w, t = z3.Ints("m!l w!l t!l")
+    hyps = _moddefs(m * w, w)
+    q = S.f_pydiv(m * w, w)
+    mono = [z3.Implies(z3.And(t >= 1, w > 0), t * w >= w), z3.Implies(z3.And(t <= -1, w > 0), t * w <= -w)]
+    out = [("lemma-base", f"mod_multiple:mono{i}", [], f) for i, f in enumerate(mono)]
+    inst = [z3.substitute(f, (t, m - q)) for f in mono]
+    out.append(("lemma-step", "mod_multiple", hyps + inst, mod_multiple(m, w)))
+    return out
+
+
 LEMMAS = {
+    "mod_multiple": (mod_multiple, mod_multiple_proof),
+    "uniform_prefix": (uniform_prefix, uniform_prefix_proof),
     "mod_shift": (mod_shift, mod_shift_proof),
     "mod_small": (mod_small, mod_small_proof),
     "mod_small_neg": (mod_small_neg, mod_small_neg_proof),
